@@ -89,23 +89,50 @@ func (w *Wal) Append(input any) error {
 }
 
 /*
-Write truncates the WAL file and writes the new input.
+Write replaces the content of the WAL file with the new input.
   - Although WALs are usually append-only, in some cases (like segmeta.json meta entries),
   - we overwrite the file since old data is no longer needed.
+  - The new content is written to a temp file that is renamed over the WAL file: truncating
+  - the WAL file in place would lose the old entries if the process dies before the write.
 */
 func (w *Wal) Write(input any) error {
-	err := w.truncate()
-	if err != nil {
-		log.Errorf("Wal.Write: failed to truncate WAL file: %v", err)
-		return err
-	}
+	var err error
 	w.encodedBuf, err = w.prepareEncodedBlock(input)
 	if err != nil {
 		log.Errorf("Wal.Write: failed to prepare encoded block: %v", err)
 		return err
 	}
 
-	return w.writeBlockToFile()
+	tmpFilePath := w.filePath + ".tmp"
+	tmpFd, err := os.OpenFile(tmpFilePath, os.O_CREATE|os.O_WRONLY|os.O_TRUNC, 0644)
+	if err != nil {
+		log.Errorf("Wal.Write: failed to open temp WAL file %s: %v", tmpFilePath, err)
+		return err
+	}
+
+	oldFd := w.fd
+	w.fd = tmpFd
+	_, err = w.fd.Write(sutils.VERSION_WALFILE)
+	if err == nil {
+		err = w.writeBlockToFile()
+	}
+	if err == nil {
+		err = w.fd.Sync()
+	}
+	if err == nil {
+		err = os.Rename(tmpFilePath, w.filePath)
+	}
+	if err != nil {
+		log.Errorf("Wal.Write: failed to write temp WAL file %s: %v", tmpFilePath, err)
+		w.fd = oldFd
+		_ = tmpFd.Close()
+		return err
+	}
+
+	if oldFd != nil {
+		_ = oldFd.Close()
+	}
+	return nil
 }
 
 func (w *Wal) writeBlockToFile() error {
@@ -132,26 +159,6 @@ func (w *Wal) writeBlockToFile() error {
 	}
 
 	w.encodedSize += uint64(Uint32Size + blockSize) // Adding 4-byte UINT32 (blockSize field) size to encodedSize, excluded from blockSize.
-	return err
-}
-
-func (w *Wal) truncate() error {
-	err := w.fd.Truncate(0)
-	if err != nil {
-		log.Errorf("Wal.truncate: failed to truncate file: %v", err)
-		return err
-	}
-	_, err = w.fd.Seek(0, 0)
-	if err != nil {
-		log.Errorf("Wal.truncate: failed to seek to beginning: %v", err)
-		return err
-	}
-
-	_, err = w.fd.Write(sutils.VERSION_WALFILE)
-	if err != nil {
-		log.Errorf("Wal.truncate: failed to write WAL version: %v", err)
-		return err
-	}
 	return err
 }
 
